@@ -36,10 +36,10 @@ RULE = ('every ordered pair of the value alphabet (quick 32, thorough 50 '
         'transitivity_triples); a case is non-trivial when the reference '
         'judges it and the two operands are different alphabet entries')
 BOUNDS = {
-    'quick': {'alphabet': 38, 'routes': 6, 'operators': 6,
-              'triples_per_full_route': 37 ** 3},
-    'thorough': {'alphabet': 56, 'routes': 9, 'operators': 6,
-                 'triples_per_full_route': 54 ** 3},
+    'quick': {'alphabet': 41, 'routes': 6, 'operators': 6,
+              'triples_per_full_route': 39 ** 3},
+    'thorough': {'alphabet': 58, 'routes': 9, 'operators': 6,
+                 'triples_per_full_route': 56 ** 3},
 }
 ASSUMPTIONS = [
     'the order stated in the property (reference model xlmc/ref/order.py, '
@@ -88,9 +88,14 @@ QUICK = [
     _date(2020, 1, 1), _date(2020, 1, 2),
     _text(''), _text('1'), _text('10'), _text('9'), _text('1A'), _text('a'), _text('A'), _text('ab'),
     _text('B'), _text('true'), _text('FALSE'), _text('é'),
+    # letters whose upper- and lower-case mappings are not inverse (laws only)
+    _text('straße'), _text('STRASSE'),
     {'id': 'b:FALSE', 'cls': 'bool', 'carrier': 'bool', 'v': False},
     {'id': 'b:TRUE', 'cls': 'bool', 'carrier': 'bool', 'v': True},
     {'id': 'blank', 'cls': 'blank', 'carrier': 'absent', 'v': None},
+    # a stored empty cell (set to None): a blank that is not the library's
+    # singleton
+    {'id': 'blank-none', 'cls': 'blank', 'carrier': 'none', 'v': None},
 ]
 EXTRA = [
     _num('f-0.0', 'float', -0.0), _num('f1e-10', 'float', 1e-10),
@@ -99,7 +104,6 @@ EXTRA = [
     _num('i61', 'int', 61), _date(1900, 3, 1),
     _text('É'), _text('TRUE'), _text('abc'), _text('Ab'), _text('-1'),
     _text('z'), _text(' a'), _text('a b'), _text('2020-01-01'),
-    {'id': 'blank-none', 'cls': 'blank', 'carrier': 'none', 'v': None},
 ]
 ALPHABET = {'quick': QUICK, 'thorough': QUICK + EXTRA}
 BY_ID = {v['id']: v for v in QUICK + EXTRA}
@@ -174,6 +178,12 @@ def pyeq_differs(a, b):
     reference equality (True==1, 'a'=='A', datetime==serial, None==0)."""
     want = ref.holds('eq', abstract(a), abstract(b))
     if want is None:
+        if a['cls'] == 'text' and b['cls'] == 'text':
+            # unjudged texts: Python's == is case-sensitive, the ordering
+            # operators are not, under either folding
+            return a['v'] != b['v'] and (
+                a['v'].upper() == b['v'].upper()
+                or a['v'].lower() == b['v'].lower())
         return False
     return bool(native(a) == native(b)) != want
 
@@ -393,13 +403,15 @@ def replay(inputs, ctx):
 
 def selftest():
     ref.selftest()
-    assert len(QUICK) == 38 and len(ALPHABET['thorough']) == 56
+    assert len(QUICK) == 41 and len(ALPHABET['thorough']) == 58
     ids = [v['id'] for v in ALPHABET['thorough']]
     assert len(ids) == len(set(ids))
     texts = [v['v'] for v in ALPHABET['thorough'] if v['cls'] == 'text']
     # upper- and lower-case folding induce the same equality on the alphabet
+    # (for the texts the reference judges at all)
     for s, t in itertools.product(texts, repeat=2):
-        assert (s.upper() == t.upper()) == (s.lower() == t.lower()), (s, t)
+        if ref.stable_fold(s) and ref.stable_fold(t):
+            assert (s.upper() == t.upper()) == (s.lower() == t.lower()), (s, t)
     # the date serials lie strictly between / on the chosen numbers
     assert abstract(BY_ID['d:2020-01-01']) == ('date', 43831)
     assert abstract(BY_ID['d:2020-01-02']) == ('date', 43832)
@@ -420,7 +432,7 @@ TECHNIQUE = ('bounded-exhaustive enumeration of ordered pairs of a value '
              'library, against a reference rank, plus the order laws '
              '(trichotomy, consistency, converse, transitivity over all '
              'triples) evaluated on the observed relation')
-LEVEL_TEXT = ('All ordered pairs of 38 (thorough: 56) representative values '
+LEVEL_TEXT = ('All ordered pairs of 41 (thorough: 58) representative values '
               '- ints, floats, equal int/float pairs, dates with serials '
               'between the numbers, empty / numeric-looking / boolean-looking '
               '/ mixed-case / prefix texts, a non-ASCII text, both logicals '
